@@ -126,7 +126,10 @@ def _hard_limit(state):
 
 
 def main():
+    import signal
     import time
+    # this process plays the user's program: Ctrl-C raises KeyboardInterrupt in it, whatever disposition was inherited
+    signal.signal(signal.SIGINT, signal.default_int_handler)
     jobs = json.load(open(sys.argv[1]))
     state = {'out': sys.argv[2]}
     _hard_limit(state)
